@@ -35,7 +35,11 @@ pub fn find_first_excess_utxo(utxos: &HashSet<Utxo>, target: &CanonicalAssets) -
         return None;
     }
 
-    for utxo in utxos.iter() {
+    // visit the set in a stable order so that the same selection is always trimmed the same way
+    let mut ordered: Vec<_> = utxos.iter().collect();
+    ordered.sort_by(|a, b| (&a.r#ref.txid, a.r#ref.index).cmp(&(&b.r#ref.txid, b.r#ref.index)));
+
+    for utxo in ordered {
         if excess.contains_total(&utxo.assets) {
             return Some(utxo.clone());
         }
